@@ -11,6 +11,7 @@ import (
 	"fmt"
 	"hash/fnv"
 	"os"
+	"os/exec"
 	"runtime/debug"
 	"sort"
 	"strconv"
@@ -560,4 +561,17 @@ func trunc(b []byte, n int) []byte {
 		return b[:n]
 	}
 	return b
+}
+
+// BlockedOrBusy decides what "a run that should end within milliseconds only ended through a safety deadline" means: a
+// violation (key script-blocked-until-deadline) when the machine is responsive right now - a process round trip takes
+// well under 100 ms -, an inconclusive note otherwise.
+func BlockedOrBusy(r *Rec, msg string) *Fail {
+	t0 := time.Now()
+	exec.Command("/bin/true").Run()
+	if probe := time.Since(t0); probe < 100*time.Millisecond {
+		return Failf("script-blocked-until-deadline", "%s (machine responsive: process round trip %v)", msg, probe.Round(time.Millisecond))
+	}
+	r.Infra("a run only ended through a safety deadline while the machine was not responsive")
+	return nil
 }
